@@ -447,6 +447,11 @@ def rule_depth_error_propagates(em, rep, rid):
     roots = [f for f in [em.repo.lookup_method(em.YP, 'query'), em.engine.functions.get('unify'), em.engine.functions.get('get_value')] if f is not None]
     roots += [b['func'] for b in em.builtins() if b['func'] is not None]
     reach = [f for f in em.cg.reachable(roots, with_refs=True, include_nested=True) if f.module.name == 'engine' and f is not eb]
+    # wrappers that are put into the context and called through it (a decorator's inner function) are not in the call graph:
+    # every generator of the engine module, and every function nested in one that is reachable, counts
+    for f in em.repo.all_functions(('engine',)):
+        if f is not eb and f not in reach and (f.is_generator or f.parent is not None) and not (eb is not None and f.parent is eb):
+            reach.append(f)
     n = 0
     for f in reach:
         mt = ExcMatcher(em.repo, f)
